@@ -35,7 +35,13 @@ EnvContents == {"e1", "e2"}
 LRan(s) == { s[i] : i \in DOMAIN s }
 
 (* ======================= property level ======================= *)
+(* The environment variable is either set to a value or unset (env = Unset).  With the variable unset *)
+(* "the inputs with environment variables substituted" is undefined for a file that references it:    *)
+(* nothing is required of that file's output (the reloader either fails the apply - tolerance off -    *)
+(* or leaves the reference as it is - tolerance on).                                                   *)
+Unset == "unset"
 EnvOf(c, env) == IF c \in EnvContents THEN env ELSE ""
+Undefined(c, env) == c \in EnvContents /\ env = Unset
 
 (* "output files equal to the inputs with environment variables substituted", and, because it is  *)
 (* an equality of the whole directory, "removes outputs whose inputs disappeared"                 *)
@@ -48,6 +54,10 @@ ObservedOut(outs) == [cfg |-> <<outs.cfg.c, outs.cfg.e>>,
 Snapshot(ins) == [cfg |-> ins.cfg, dir |-> { <<x.n, x.c>> : x \in LRan(ins.dir) },
                   wat |-> { <<x.n, x.c>> : x \in LRan(ins.wat) }]
 
+(* The one fault of the environment that may make an apply fail: tolerance for unset variables is off, *)
+(* the variable is unset and some file that is expanded references it.                                *)
+MayFail(ins, env, tol) == ~tol /\ (Undefined(ins.cfg, env) \/ \E x \in LRan(ins.dir) : Undefined(x.c, env))
+
 (* What the property remembers between applies. *)
 PInit == [hadOK |-> FALSE, lastOK |-> [cfg |-> "", dir |-> {}, wat |-> {}], lastEnv |-> "", pendingFail |-> FALSE]
 
@@ -59,30 +69,47 @@ PInit == [hadOK |-> FALSE, lastOK |-> [cfg |-> "", dir |-> {}, wat |-> {}], last
 MustTrigger(P, snap) == (P.hadOK /\ snap # P.lastOK) \/ (P.pendingFail /\ ~P.hadOK)
 MustNotTrigger(P, snap, env) == P.hadOK /\ snap = P.lastOK /\ ~P.pendingFail /\ env = P.lastEnv
 
-PNext(P, snap, env, calls, oks) ==
-    IF oks >= 1 THEN [hadOK |-> TRUE, lastOK |-> snap, lastEnv |-> env, pendingFail |-> FALSE]
+(* an apply that returned an error leaves the memory as it is *)
+PNext(P, snap, env, err, calls, oks) ==
+    IF err # "" THEN P
+    ELSE IF oks >= 1 THEN [hadOK |-> TRUE, lastOK |-> snap, lastEnv |-> env, pendingFail |-> FALSE]
     ELSE IF calls >= 1 THEN [P EXCEPT !.pendingFail = TRUE]
     ELSE IF ~P.hadOK /\ ~P.pendingFail THEN [hadOK |-> TRUE, lastOK |-> snap, lastEnv |-> env, pendingFail |-> FALSE]
     ELSE P
 
-(* Clauses violated by one observed apply.  o = [calls, oks, err, outs, atok].  *)
-ApplyClauses(P, ins, env, o) ==
+(* The output clauses for a set of observed output files at a quiescent point: every input whose     *)
+(* expansion is defined has exactly its expansion as output, and no output exists without an input.  *)
+(* This is the eventual clause of the statement; it is judged after EVERY apply that completed        *)
+(* without error and either reloaded successfully or had no reason to reload - in particular after    *)
+(* the first such apply following a failed one (recovery).                                            *)
+OutputClauses(ins, env, outs, suffix) ==
+    LET want == ExpectedOut(ins, env)
+        got  == ObservedOut(outs)
+        undefNames == { x.n : x \in { y \in LRan(ins.dir) : Undefined(y.c, env) } }
+        wantD == { x \in want.dir : x[1] \notin undefNames }
+        gotD  == { x \in got.dir : x[1] \notin undefNames }
+    IN
+    (IF ~Undefined(ins.cfg, env) /\ got.cfg # want.cfg THEN {"config-output-equals-expanded-input" \o suffix} ELSE {})
+    \cup (IF wantD \subseteq gotD /\ \A x \in gotD : x \in wantD \/ \A y \in want.dir : y[1] # x[1]
+            THEN {} ELSE {"dir-outputs-equal-expanded-inputs" \o suffix})
+    \cup (IF \E x \in got.dir : \A y \in want.dir : y[1] # x[1] THEN {"orphan-outputs-removed" \o suffix} ELSE {})
+
+(* Clauses violated by one observed apply.  o = [calls, oks, err, outs, atok]; tol = tolerance for    *)
+(* unset variables (configuration).                                                                   *)
+ApplyClauses(P, ins, env, tol, o) ==
     LET snap == Snapshot(ins)
-        want == ExpectedOut(ins, env)
-        got  == ObservedOut(o.outs)
         settled == o.err = "" /\ (o.oks >= 1 \/ o.calls = 0)
     IN
-    (IF o.err # "" THEN {"apply-completes"} ELSE {})
-    \cup (IF MustTrigger(P, snap) /\ o.calls = 0
+    IF o.err # ""
+      (* an apply may only fail because of the fault above; nothing else is judged about a failed apply *)
+      THEN (IF MayFail(ins, env, tol) THEN {} ELSE {"apply-completes"})
+    ELSE
+    (IF MustTrigger(P, snap) /\ o.calls = 0
             THEN (IF P.hadOK /\ snap # P.lastOK THEN {"reload-when-content-changed"} ELSE {"failed-reload-retried"}) ELSE {})
     \cup (IF MustNotTrigger(P, snap, env) /\ o.calls > 0 THEN {"no-reload-when-unchanged"} ELSE {})
     \cup (IF o.oks > 1 THEN {"one-successful-reload-per-apply"} ELSE {})
-    \cup (IF settled /\ got.cfg # want.cfg THEN {"config-output-equals-expanded-input"} ELSE {})
-    \cup (IF settled /\ ~(want.dir \subseteq got.dir) THEN {"dir-outputs-equal-expanded-inputs"} ELSE {})
-    \cup (IF settled /\ \E x \in got.dir : \A y \in want.dir : y[1] # x[1] THEN {"orphan-outputs-removed"} ELSE {})
-    \cup (IF settled /\ \E x \in got.dir : x \notin want.dir /\ \E y \in want.dir : y[1] = x[1]
-            THEN {"dir-outputs-equal-expanded-inputs"} ELSE {})
-    \cup (IF o.oks >= 1 /\ ObservedOut(o.atok) # want THEN {"outputs-in-place-when-reload-requested"} ELSE {})
+    \cup (IF settled THEN OutputClauses(ins, env, o.outs, "") ELSE {})
+    \cup (IF o.oks >= 1 THEN OutputClauses(ins, env, o.atok, "-when-reload-requested") ELSE {})
 
 (* ======================= algorithm level ======================= *)
 (* Summary of what apply() decides (the step-wise model with the three hashes, lastCfgDirFiles and    *)
@@ -91,8 +118,9 @@ ApplyClauses(P, ins, env, o) ==
 (* last successful reload.  Used by the trace spec for model conformance only.                        *)
 AInit == [have |-> FALSE, snap |-> PInit.lastOK, force |-> FALSE]
 ATrigger(A, snap) == A.force \/ ~A.have \/ A.snap # snap
-ANext(A, snap, calls, oks) ==
-    IF oks >= 1 THEN [have |-> TRUE, snap |-> snap, force |-> FALSE]
+ANext(A, snap, err, calls, oks) ==
+    IF err # "" THEN A
+    ELSE IF oks >= 1 THEN [have |-> TRUE, snap |-> snap, force |-> FALSE]
     ELSE IF calls >= 1 THEN [A EXCEPT !.force = TRUE]
     ELSE A
 =============================================================================
